@@ -24,7 +24,7 @@ GID = [f"g{i}" for i in range(N_GID)]
 # ops that the documentation (docstrings / @resettable / statement of C03) declares reversible in a context
 REVERSIBLE = {
     "add_reactions", "readd", "remove_reactions", "add_metabolites", "remove_metabolites", "add_boundary", "rxn_add_mets",
-    "bounds", "rule", "gene_state", "knock_out_model_genes", "objective", "direction", "imul", "iadd", "isub",
+    "bounds", "bounds_seq", "rule", "gene_state", "knock_out_model_genes", "objective", "direction", "imul", "iadd", "isub",
     "remove_genes", "rename_genes", "add_cons", "add_var", "remove_cons", "medium", "optimize", "solver",
     "from_string", "merge", "helper",
 }
@@ -77,6 +77,10 @@ OPS: Dict[str, Any] = {
     "rxn_add_mets": _d("rxn_add_mets", rxn=_k, mets=st.lists(st.tuples(st.integers(0, N_MID - 1), _coef0, st.sampled_from(["obj", "obj", "id", "copy"])),
                                                                 min_size=1, max_size=3, unique_by=lambda t: t[0]),
                        combine=st.booleans(), subtract=st.booleans()),
+    # several single-bound assignments on ONE reaction (lower, upper, lower, ...): every assignment is valid where it is
+    # made (an assignment that would cross the other bound is left out), but undoing them in another order may not be
+    "bounds_seq": _d("bounds_seq", rxn=_k, first=st.sampled_from(["lb", "ub"]),
+                     vals=st.lists(st.sampled_from([-20, -4, 0, 2, 8, 20, 50, -1000, 1000]), min_size=3, max_size=5)),
     "bounds": _d("bounds", rxn=_k, kind=st.sampled_from(["lb", "ub", "both", "both", "knock_out"]), b=_bnd,
                  raw=st.tuples(st.sampled_from([-10, 0, 5, 1000, -1000]), st.sampled_from([-5, 0, 10, 1000]))),
     "rule": _d("rule", rxn=_k, tree=_trees, spelling=st.sampled_from(["word", "word", "upper", "sym"]), via=st.sampled_from(["text", "text", "gpr"])),
@@ -423,6 +427,19 @@ class World:
             r.subtract_metabolites(arg, combine=op["combine"])
         else:
             r.add_metabolites(arg, combine=op["combine"])
+
+    def op_bounds_seq(self, op):
+        m = self.model
+        if not len(m.reactions):
+            return "skipped:empty"
+        r = self.pick(m.reactions, op["rxn"])
+        attr = op["first"]
+        for v in op["vals"]:
+            if attr == "lb" and v <= r.upper_bound:
+                r.lower_bound = v
+            elif attr == "ub" and v >= r.lower_bound:
+                r.upper_bound = v
+            attr = "ub" if attr == "lb" else "lb"
 
     def op_bounds(self, op):
         m = self.model
@@ -876,7 +893,7 @@ def pair_cases(seed: int, specs_list: List[Dict[str, Any]], names: List[str], in
     import itertools
 
     inst = concrete_instances(seed, names, per_name)
-    flat = [op for n in names for op in inst[n]]
+    flat = [op for n in names for op in inst[n]] + [op for op in EXTRA_INSTANCES if op["op"] in names]
     for spec in specs_list:
         for pre in (prefixes if prefixes is not None else [list(prefix)]):
             for combo in itertools.product(flat, repeat=length):
@@ -885,6 +902,17 @@ def pair_cases(seed: int, specs_list: List[Dict[str, Any]], names: List[str], in
                 else:
                     yield {"spec": spec, "path": "bulk", "ops": [*pre, *combo]}
 
+
+# instances that the enumerations always contain besides the drawn ones: operations that must fail and change nothing
+# (identifier taken by a user variable of the first prefix, identifier the solver layer rejects, a name that exists)
+EXTRA_INSTANCES = [
+    {"op": "rename_rxn", "rxn": 0, "new": RID.index("uvar0")},
+    {"op": "rename_rxn", "rxn": 1, "new": RID.index("R 1")},
+    {"op": "rename_met", "met": 0, "new": MID.index("M 1")},
+    {"op": "add_reactions", "rxns": [{"b": [0, 1000], "id": RID.index("uvar0"), "met_mode": "model", "mets": [], "rule": None}], "own": False},
+    {"op": "add_var", "name": 0, "b": (0, 5), "kind": "continuous"},
+    {"op": "add_metabolites", "mets": [MID.index("M 1")], "single": False, "own": False},
+]
 
 # prefixes for the enumerations: user rows/columns exist; detached reaction objects exist (one with a rule whose gene stays
 # in the model, one removed together with its orphaned gene)
